@@ -88,16 +88,16 @@ fn do_apply_inner(pat: &RoutePattern, params: &HashMap<String, String>) -> Value
     match pat.apply(params) {
         Ok(route) => {
             let uri = RouteUri::from_str(&route);
-            let (uri_ok, path) = match &uri {
-                Ok(u) => (true, Value::String(u.path().to_string())),
-                Err(_) => (false, Value::Null),
+            let (uri_ok, path, uscheme) = match &uri {
+                Ok(u) => (true, Value::String(u.path().to_string()), json!(u.scheme())),
+                Err(_) => (false, Value::Null, Value::Null),
             };
             let rt = opt_map(pat.unapply_str(&route));
             let rt2 = match &uri {
                 Ok(u) => opt_map(pat.unapply_route_uri(u)),
                 Err(_) => Value::Null,
             };
-            json!({"r": route, "uri_ok": uri_ok, "path": path, "rt": rt, "rt_uri": rt2})
+            json!({"r": route, "uri_ok": uri_ok, "path": path, "uscheme": uscheme, "rt": rt, "rt_uri": rt2})
         }
         Err(e) => {
             // ApplyError's fields are private: "Failed to populate '<p>', missing parameters: a, b."
